@@ -155,7 +155,7 @@ type gatedStats struct {
 func runGatedScenario(r *ev.Run, dir string, cfg gatedCfg, seed uint64, W, B, nIDs int) (string, *gatedWitness, *gatedStats, *sched.Result) {
 	g := rng.New(seed)
 	writers, ids, keys := genWriters(g.Derive("writers"), W, B, nIDs)
-	sc := &sched.Scenario{Dir: filepath.Join(dir, fmt.Sprintf("g-%s-%x", cfg.Name, seed)), KV: cfg.KV, Writers: writers, G: g.Derive("sched"), MaxSteps: 400}
+	sc := &sched.Scenario{Dir: filepath.Join(dir, fmt.Sprintf("g-%s-%x", cfg.Name, seed)), KV: cfg.KV, Writers: writers, G: g.Derive("sched"), MaxSteps: 400, Policy: sched.Policies[int(seed%uint64(len(sched.Policies)))]}
 	stats := &gatedStats{}
 	var problem string
 	var wit *gatedWitness
